@@ -469,6 +469,16 @@ def extract_probes(emit):
     d = C.parse("abc", "%n").values()
     d["%n"] = "q"
     after_vals = C.parse("abc", "%n").format("%n")
+    # which characters of a constant text are escaped in its pattern (extensional, per character)
+    esc_chars = []
+    for o in range(32, 127):
+        ch = chr(o)
+        rx = F.dict2const({"%n": ch}, "ProbeConst").regex()["%n"]
+        if rx == "(?P<november>\\" + ch + ")":
+            esc_chars.append(ch)
+        elif rx != "(?P<november>" + ch + ")":
+            raise ExtractError(f"dict2const: unexpected pattern for the one-character text {ch!r}: {rx!r}")
+    emit(f"def const_escape_chars : List Char := {lean_str(''.join(esc_chars))}")
     emit(f"def const_aliases_source : Bool := {'true' if after_src != before else 'false'}")
     emit(f"def const_values_aliases : Bool := {'true' if after_vals != before else 'false'}")
 
